@@ -1,4 +1,4 @@
-CONSTANTS Families = {"one", "rsv"}  Bug = "RsvSkipLowest"  Emit = FALSE
+CONSTANTS Families = {"mini"}  Bug = "RsvSkipLowest"  Emit = FALSE
   TwoFlags = {}
   TwoSizes = {}
   ThreeSizes = {}
